@@ -128,6 +128,7 @@ def check_double(case):
 soc_st = st.fixed_dictionaries(dict(
     pair=spinsoc.updown_st(max_wann=3, max_npairs=4, rmax=2),
     socmode=st.sampled_from(["full", "full", "full", "alpha0"]),
+    oneside=st.sampled_from([False, False, True]),     # up/down hoppings listed for one direction only (R without -R)
     NKFFT=_nkfft, dK=_dK,
     kpts=st.lists(wbsys.kpoint_st(), min_size=2, max_size=2),
 ))
@@ -152,9 +153,14 @@ def check_soc(case):
     p = dict(case["pair"])
     if p["soc"] is not None and case["socmode"] == "alpha0":
         p["soc"] = dict(p["soc"], alpha=0.0)
+    p["oneside"] = bool(case.get("oneside", False))
     sm = spinsoc.SocModel(p)
     n = sm.n
     soc = spinsoc.build_soc_system(sm)
+
+    def herm(X):
+        X = np.asarray(X)
+        return 0.5 * (X + np.conj(np.swapaxes(X, 0, 1)))
     if get_data_k_class_from_system(soc) is not Data_K_soc:
         raise Violation("soc-dispatch", "SystemSOC is not evaluated by Data_K_soc")
     if soc.num_wann != 2 * n:
@@ -195,19 +201,22 @@ def check_soc(case):
         gauge_model = sm.merged(pauli=P)
     else:
         gauge_model = ref_model
-    refH = np.array([gauge_model.Hk(k) for k in kpts])
+    refH = np.array([herm(gauge_model.Hk(k)) for k in kpts])
     HH = np.array(dk.HH_K)
     if reldiff(HH, refH) > TOL:
         raise Violation("soc-HH_K", f"Data_K_soc.HH_K differs from the own assembly by {reldiff(HH, refH):.2e}")
     if reldiff(HH, np.conj(np.swapaxes(HH, 1, 2))) > 1e-13:
         raise Violation("soc-HH_K-hermiticity", "HH_K not Hermitian")
-    refdH = np.array([gauge_model.Xk("Ham", k, der=1) for k in kpts])
+    refdH = np.array([herm(gauge_model.Xk("Ham", k, der=1)) for k in kpts])
     dH = _unrotate(dk, dk.Xbar("Ham", 1))
-    if reldiff(dH, refdH) > TOL:
+    # (one-sided lists: only the Hamiltonian itself is made Hermitian by the code, its k-derivative is not - the
+    # derivative clauses are asserted for closed lists only)
+    if not p["oneside"] and reldiff(dH, refdH) > TOL:
         raise Violation("soc-dH", f"Xbar('Ham',1) rotated back differs from the own derivative by {reldiff(dH, refdH):.2e}")
     labels = [f"nspin={sm.nspin}", "R-sets-differ" if sm.Rsets_differ else None,
               "R-counts-differ" if sm.Rcounts_differ else None, "rmode=" + p["rmode"],
-              "no-soc-term" if not sm.has_soc else ("alpha=0" if sm.alpha == 0 else "soc"), f"nw={n}"]
+              "no-soc-term" if not sm.has_soc else ("alpha=0" if sm.alpha == 0 else "soc"), f"nw={n}",
+              "one-sided-R-lists" if p["oneside"] else None]
     # --- plain real-space system derived from the spin-orbit system
     generic_axis = False
     if sm.has_soc:
@@ -224,7 +233,7 @@ def check_soc(case):
         if len({tuple(R) for R in pm.iRvec.tolist()}) != len(pm.iRvec):
             raise Violation("plain-duplicate-R", "duplicate R-vectors in get_system_R()")
         for k in list(kpts[:4]) + [np.array(k) for k in case["kpts"]]:
-            d = reldiff(pm.Hk(k), gauge_model.Hk(k))
+            d = reldiff(herm(pm.Hk(k)), herm(gauge_model.Hk(k)))
             if d > TOL:
                 raise Violation("plain-H", f"explicit Fourier sum of get_system_R().Ham at k={np.asarray(k).tolist()} "
                                 f"differs from the spin-orbit Hamiltonian by {d:.2e}")
@@ -236,7 +245,7 @@ def check_soc(case):
         if reldiff(np.array(dkp.E_K), refE) > TOL:
             raise Violation("plain-spectrum", f"{reldiff(np.array(dkp.E_K), refE):.2e}")
         dHp = _unrotate(dkp, dkp.Xbar("Ham", 1))
-        if reldiff(dHp, refdH) > TOL:
+        if not p["oneside"] and reldiff(dHp, refdH) > TOL:
             raise Violation("plain-dH", f"k-derivative of the plain Hamiltonian differs by {reldiff(dHp, refdH):.2e}")
     nontrivial = sm.Rsets_differ or (sm.has_soc and sm.alpha != 0 and generic_axis)
     return ok(nontrivial, *labels)
